@@ -300,7 +300,7 @@ pub fn run(cli: &Cli) {
     let property = cli.extra.get("property").cloned().unwrap_or("C04".into());
     let mut rep = Report::new(&property, "sync", cli.seed, &cli.tier);
     let rt = tokio::runtime::Builder::new_multi_thread().worker_threads(4).enable_all().build().unwrap();
-    let n: u64 = cli.extra.get("cases").and_then(|s| s.parse().ok()).unwrap_or(if cli.tier == "thorough" { 400 } else { 40 });
+    let n: u64 = cli.extra.get("cases").and_then(|s| s.parse().ok()).unwrap_or(if cli.tier == "thorough" { 240 } else { 40 });
     let mut corr = Corr { ops: vec![], imp: vec![] };
     if let Some(path) = &cli.replay {
         let v: serde_json::Value = serde_json::from_str(&std::fs::read_to_string(path).unwrap()).unwrap();
@@ -560,7 +560,7 @@ pub fn run_sched(cli: &Cli) {
     let property = cli.extra.get("property").cloned().unwrap_or("C09".into());
     let mut rep = Report::new(&property, "sched", cli.seed, &cli.tier);
     let rt = tokio::runtime::Builder::new_multi_thread().worker_threads(4).enable_all().build().unwrap();
-    let n: u64 = cli.extra.get("cases").and_then(|s| s.parse().ok()).unwrap_or(if cli.tier == "thorough" { 600 } else { 60 });
+    let n: u64 = cli.extra.get("cases").and_then(|s| s.parse().ok()).unwrap_or(if cli.tier == "thorough" { 300 } else { 60 });
     if let Some(path) = &cli.replay {
         let v: serde_json::Value = serde_json::from_str(&std::fs::read_to_string(path).unwrap()).unwrap();
         let seed = v["case"]["case_seed"].as_u64().unwrap_or(cli.seed);
